@@ -3,11 +3,11 @@
 from __future__ import annotations
 from pathlib import Path
 
-path_configs = {'main': 'spil_fs_conf',
+path_configs = {'main': 'spil_fs_main_conf',       # no module is called 'spil_fs_conf' (PathConfig's default name) here
                 'mirror': 'spil_fs_mirror_conf',
                 'archive': 'spil_fs_archive_conf'}
 
-default_path_config = 'main'
+default_path_config = ''      # empty: the FIRST entry of path_configs is the default
 
 _finders_by_type: dict = {}
 
